@@ -240,11 +240,12 @@ def classify(case, detail, impl_lines):
     idx, code, what, method, ep = int(m.group(1)), int(m.group(2)), m.group(3), m.group(4), m.group(5)
     if code == 2 and method == 'pki::UpdateCertificate' and ep == 'none':
         return 'anon-update-certificate'
+    mm = method.replace('::', '.')
     if code == 2 and ep == 'none':
-        return 'applied-for-sender-without-endpoint'
+        return 'applied-for-sender-without-endpoint@' + mm
     if code == 2:
-        return 'applied-not-entitled'
-    return what
+        return 'applied-not-entitled@' + mm
+    return what + '@' + mm
 
 
 def keep_line(l):
